@@ -45,6 +45,9 @@ MUTATORS = ("remove", "retain", "retain_mut", "clear", "pop", "truncate", "drain
 
 def check(ctx):
     prog = ctx.prog
+    D1 = ctx.rule("D1", "the account file is rewritten whole and flushed: write_file opens it with truncate/create_new, writes the data, flushes before reporting success")
+    from .storage_common import durable_write_rule
+    durable_write_rule(ctx, D1, ("Account",))
     W1 = ctx.rule("W1", "wire shape of the account requests (RFC 8555 7.3, 7.3.2, 7.3.5, 7.3.6) and of the account file: member names as written by the derived Serialize impls, none conditional except externalAccountBinding")
     from .wire_shape import check_shapes
     from .wire_shape import check_read_shapes
